@@ -1,8 +1,9 @@
-(* C09 (windowed classes) -- state_dict / load_state_dict and the ring-buffer cursor (D5).
+(* C09 (windowed classes) -- state_dict / load_state_dict and the ring-buffer cursor (D5, load half).
    The cursor next_inserted is a plain attribute: state_dict() does not contain it and
-   load_state_dict() leaves the target's own value in place.  On the faithful models this
-   falsifies "the restored object behaves like the original" for all five classes; on the
-   V_fixed variant (cursor saved and restored with the registered states) it holds. *)
+   load_state_dict() leaves the target's own value in place (unchanged by the fix c5ceb09, which
+   only repaired reset()).  On the faithful models of the CURRENT code (V_code) this falsifies
+   "the restored object behaves like the original" for all five classes; on the V_fixed variant
+   (cursor saved and restored with the registered states) it holds. *)
 From Coq Require Import ZArith List Bool.
 From TE Require Import Base.Val Algebra.Metric Algebra.Pool Models.Window Models.WindowAUROC Proofs.WindowP.
 Import ListNotations.
@@ -11,44 +12,44 @@ Import ListNotations.
    such that, after  d := obj0.state_dict(); obj1 (fresh).load_state_dict(d),  feeding the same
    batches to obj0 and to obj1 (compute() after every update) gives different compute() results.
    Stated through Pool.exec on the faithful Metric. *)
-Theorem window_load_refuted : load_breaks (wctr false) (wctr_codec false).
+Theorem window_load_refuted : load_breaks (wctr V_code) (wctr_codec V_code).
 Proof. exact wctr_load_breaks. Qed.
 (* window 3, updates [1],[0]; save; load into a fresh instance; three more updates [1],[1],[1]:
    original 2/3, 2/3, 1 -- restored 1/2, 1, 1 *)
 Theorem window_load_refuted_values :
-  behaviour (wctr false) (wctr_codec false) wcfg3 2 (ctr_pre ++ [o_save 0 0; o_load 1 0] ++ cont_on ctr_cont 0)
+  behaviour (wctr V_code) (wctr_codec V_code) wcfg3 2 (ctr_pre ++ [o_save 0 0; o_load 1 0] ++ cont_on ctr_cont 0)
     = [VL [vq (q 2 3)]; VL [vq (q 2 3)]; VL [vq (q 1 1)]] /\
-  behaviour (wctr false) (wctr_codec false) wcfg3 2 (ctr_pre ++ [o_save 0 0; o_load 1 0] ++ cont_on ctr_cont 1)
+  behaviour (wctr V_code) (wctr_codec V_code) wcfg3 2 (ctr_pre ++ [o_save 0 0; o_load 1 0] ++ cont_on ctr_cont 1)
     = [VL [vq (q 1 2)]; VL [vq (q 1 1)]; VL [vq (q 1 1)]].
 Proof. exact wctr_load_witness_values. Qed.
-Theorem window_load_refuted_wcal : load_breaks (wcal false) (wcal_codec false).
+Theorem window_load_refuted_wcal : load_breaks (wcal V_code) (wcal_codec V_code).
 Proof. exact wcal_load_breaks. Qed.
-Theorem window_load_refuted_wmse : load_breaks (wmse false) (wmse_codec false).
+Theorem window_load_refuted_wmse : load_breaks (wmse V_code) (wmse_codec V_code).
 Proof. exact wmse_load_breaks. Qed.
-Theorem window_load_refuted_wne : load_breaks (wne false) (wne_codec false).
+Theorem window_load_refuted_wne : load_breaks (wne V_code) (wne_codec V_code).
 Proof. exact wne_load_breaks. Qed.
-Theorem window_load_refuted_wauroc : load_breaks (wauroc false) (wauroc_codec false).
+Theorem window_load_refuted_wauroc : load_breaks (wauroc V_code) (wauroc_codec V_code).
 Proof. exact wauroc_load_breaks. Qed.
 
 (* V_fixed: with the cursor among the saved states, load_state_dict(state_dict()) into ANY target
    reproduces the source state exactly ... *)
 Theorem window_load_fixed :
   forall (W : WinSpec) (c : wcfg) (tgt s : wst (wS W)),
-    load (win_metric W true) c tgt (save (win_metric W true) c s) = s.
+    load (win_metric W V_fixed) c tgt (save (win_metric W V_fixed) c s) = s.
 Proof. exact win_fixed_load. Qed.
 Theorem window_load_fixed_wauroc :
-  forall (c : acfg) (tgt s : ast), load (wauroc true) c tgt (save (wauroc true) c s) = s.
+  forall (c : acfg) (tgt s : ast), load (wauroc V_fixed) c tgt (save (wauroc V_fixed) c s) = s.
 Proof. exact wauroc_fixed_load. Qed.
 (* ... hence, in any pool, save + load leaves the objects exactly as a deep copy does: the restored
    object and the original have the same state, and therefore the same observations under every
    continuation (Pool.exec is a function of the pool). *)
 Theorem window_load_fixed_bisim :
-  forall (W : WinSpec) (K : Codec (win_metric W true)) (c : wcfg) (p : pool (win_metric W true)) (i j k : nat),
+  forall (W : WinSpec) (K : Codec (win_metric W V_fixed)) (c : wcfg) (p : pool (win_metric W V_fixed)) (i j k : nat),
     (k < List.length (dicts _ p))%nat ->
     objs _ (after _ K c p [o_save i k; o_load j k]) = objs _ (after _ K c p [o_clone i j]).
 Proof. intros W K c. apply load_bisim_of_eq. intros tgt s. reflexivity. Qed.
 Theorem window_load_fixed_bisim_wauroc :
-  forall (K : Codec (wauroc true)) (c : acfg) (p : pool (wauroc true)) (i j k : nat),
+  forall (K : Codec (wauroc V_fixed)) (c : acfg) (p : pool (wauroc V_fixed)) (i j k : nat),
     (k < List.length (dicts _ p))%nat ->
     objs _ (after _ K c p [o_save i k; o_load j k]) = objs _ (after _ K c p [o_clone i j]).
 Proof. intros K c. apply load_bisim_of_eq. intros tgt s. reflexivity. Qed.
